@@ -194,7 +194,7 @@ def compare_case(case, impl, model, project, start=0):
 
 
 # -------------------------------------------------------------------- shrinking
-def shrink(case, failing, candidates_of, max_rounds=40, max_seconds=120):
+def shrink(case, failing, candidates_of, max_rounds=40, max_seconds=60):
     """Greedy batch shrinking: `failing(list of cases) -> list of bool` (time-capped: the replay is then
     simply less minimal)."""
     cur = case
